@@ -3,6 +3,7 @@
 package main
 
 import (
+	"github.com/edutko/decipher/internal/file"
 	"fmt"
 	"net"
 	"os"
@@ -267,6 +268,34 @@ func init() {
 		if a[0] == "dash" {
 			argv = []string{"-"}
 		}
+		switch a[0] {
+		case "offset":
+			// standard input is a regular file whose read position is past a prefix (`{ read header; decipher; } < file`):
+			// the bytes supplied are those from the position on
+			prefix := []byte("a header line the caller has already consumed\n")
+			must(os.WriteFile(filepath.Join(dir, "whole"), append(append([]byte{}, prefix...), data...), 0o644))
+			fh, err := os.Open(filepath.Join(dir, "whole"))
+			must(err)
+			defer fh.Close()
+			_, err = fh.Seek(int64(len(prefix)), 0)
+			must(err)
+			r := runCLIStdinFile(dir, nil, fh, 10*time.Second)
+			must(os.WriteFile(filepath.Join(dir, "blob"), data, 0o644))
+			f := runCLI(dir, []string{"blob"}, []byte{}, nil, 10*time.Second)
+			return cliRes(r) + " file " + cliRes(f)
+		case "bigpipe":
+			// more than the read limit on a PIPE vs the same bytes in a file: data, blanks up to the limit, then one more byte
+			big := make([]byte, 0, int(file.MaxReadSize)+1)
+			big = append(big, data...)
+			for int64(len(big)) < int64(file.MaxReadSize) {
+				big = append(big, ' ')
+			}
+			big = append(big, 'x')
+			r := runCLI(dir, argv, big, nil, 120*time.Second)
+			must(os.WriteFile(filepath.Join(dir, "blob"), big, 0o644))
+			f := runCLI(dir, []string{"blob"}, []byte{}, nil, 120*time.Second)
+			return cliRes(r) + " file " + cliRes(f)
+		}
 		r := runCLI(dir, argv, data, nil, 10*time.Second)
 		must(os.WriteFile(filepath.Join(dir, "blob"), data, 0o644))
 		f := runCLI(dir, []string{"blob"}, []byte{}, nil, 10*time.Second)
@@ -431,5 +460,7 @@ func genC10(tier string, r *rng) {
 	for _, c := range contents {
 		emit("stdin", "none", hx(c))
 		emit("stdin", "dash", hx(c))
+		emit("stdin", "offset", hx(c))
 	}
+	emit("stdin", "bigpipe", hx(contents[0]))
 }
